@@ -34,16 +34,18 @@ MANIFEST = dict(
 
 HARNESS = os.path.join(core.VERIF, 'tools', 'harness', 'c16_impl.py')
 KF_MEMO, KF_ATTR, KF_GLOB = 'F-LOOKUP-MEMO-CROSS', 'F-ATTR-TESTS-CONST-FALSE', 'F-ENV-GLOBALS'
+KF_SUBDIR, KF_SHADOW = 'F-LOOKUP-SUBDIR-NAME', 'F-LOOKUP-USER-GENERAL-FIRST'
 
 
 def load_known_fragment(chk: core.Check) -> None:
     """known_findings.json is merged by the lead from known_findings.d/; until then read our own fragment"""
-    if any(e['id'] in (KF_MEMO, KF_ATTR, KF_GLOB) for e in chk.known):
+    if any(e['id'] in (KF_SUBDIR, KF_SHADOW) for e in chk.known):
         return
     p = os.path.join(core.VERIF, 'known_findings.d', 'C16.json')
     if os.path.exists(p):
         with open(p, encoding='utf-8') as f:
-            chk.known = list(chk.known) + [e for e in json.load(f)['findings'] if PROP in e['properties']]
+            have = {e['id'] for e in chk.known}
+            chk.known = list(chk.known) + [e for e in json.load(f)['findings'] if PROP in e['properties'] and e['id'] not in have]
 
 
 # ---- encoding for the OCaml driver ---------------------------------------------------------------
@@ -69,11 +71,11 @@ def stem(rel: str) -> typing.Optional[str]:
     return b[:-3] if (b.endswith('.j2') and len(b) > 3) else None
 
 
-def enc_tset(names: typing.Optional[typing.List[str]]) -> str:
-    """raw listing in the order of the bundled loaders (sorted); suffix filter and stem are applied by the model"""
+def enc_tset_raw(names: typing.Optional[typing.List[str]]) -> str:
+    """raw listing, unsorted; sorting, suffix filter and stem are applied by the model"""
     if names is None:
         return '-'
-    return enc_list([enc(n) for n in sorted(names)])
+    return enc_list([enc(n) for n in names])
 
 
 def run_model(exe: str, lines: typing.List[str]) -> typing.List[str]:
@@ -99,46 +101,93 @@ def run_impl(doc: dict) -> dict:
 
 # ---- the property as an executable oracle (independent of the Coq model) -----------------------------------------
 def loaders(case):
-    fs = case['fs']
-    pkg = case['pkg'] if (case['pkg'] is not None and (case['policy'] == 'FIND_ALL' or fs is None)) else None
-    return fs, pkg
+    """(user search paths in order | None, package listing | None) -- which loaders DSDLTemplateLoader.__init__ creates"""
+    roots = None if case['fs'] is None else [case['fs']] + list(case.get('fs_more') or [])
+    pkg = case['pkg'] if (case['pkg'] is not None and (case['policy'] == 'FIND_ALL' or roots is None)) else None
+    return roots, pkg
 
 
-def oracle_lookup(chains, case) -> typing.List[typing.Optional[str]]:
-    fs, pkg = loaders(case)
+def enc_roots(case) -> str:
+    """raw, UNSORTED names per user search path (the model sorts and de-duplicates like the bundled loaders)"""
+    if case['fs'] is None:
+        return '-'
+    return '|'.join(enc_list([enc(n) for n in r]) for r in [case['fs']] + list(case.get('fs_more') or []))
+
+
+def oracle_rendered(chains, case) -> typing.List[str]:
+    """the property: most specific class of the chain with a file named exactly <Class>.j2 in ANY root of the loader chain; the file
+    rendered is the one in the first root (user search paths in order, then the package) that has it"""
+    roots, pkg = loaders(case)
     out = []
     for cn in case['seq']:
-        r = None
-        for names in (fs, pkg):
-            if names is None or r is not None:
-                continue
-            m = {stem(n): n for n in sorted(names) if stem(n) is not None}
-            for anc in chains[cn]:
-                if anc in m:
-                    r = m[anc]
-                    break
+        r = 'T'
+        for k in chains[cn]:
+            name = k + '.j2'
+            hit = next(('U%d' % i for i, root in enumerate(roots or []) if name in root), None)
+            if hit is None and pkg is not None and name in pkg:
+                hit = 'P'
+            if hit is not None:
+                r = 'R:%s:%s' % (hit, name)
+                break
         out.append(r)
+    return out
+
+
+def impl_outcomes(got: dict) -> typing.List[str]:
+    out = []
+    for r, sfile in zip(got['res'], got['src']):
+        if r is None:
+            out.append('T')
+        elif sfile is None:
+            out.append('N:' + r.rsplit('/', 1)[-1])
+        else:
+            tag, rel = sfile.strip().split(':', 1)
+            out.append('R:%s:%s' % (tag, rel))
     return out
 
 
 def oracle_source(case, name: typing.Optional[str]) -> typing.Optional[str]:
     if name is None:
         return None
-    fs, pkg = loaders(case)
-    if fs is not None and name in fs:
-        return 'U'
+    roots, pkg = loaders(case)
+    for i, root in enumerate(roots or []):
+        if name in root:
+            return 'U%d:%s' % (i, name)
     if pkg is not None and name in pkg:
-        return 'P'
+        return 'P:' + name
     return None
 
 
-def memo_trigger(chains, case) -> bool:
-    """F-LOOKUP-MEMO-CROSS can only matter when both loaders exist and the package set holds a class and one of its proper ancestors"""
-    fs, pkg = loaders(case)
-    if fs is None or pkg is None:
+def code_index(names) -> dict:
+    """the index type_to_template builds (pathlib suffix/stem on the basename, sorted listing, later wins) -- trigger predicates only"""
+    idx = {}
+    for n in sorted(set(names)):
+        b = n.rsplit('/', 1)[-1]
+        i = b.rfind('.')
+        if 0 < i < len(b) - 1 and b[i:] == '.j2':
+            idx[b[:i]] = n
+    return idx
+
+
+def subdir_trigger(case) -> bool:
+    """F-LOOKUP-SUBDIR-NAME: some indexed template of an existing loader lives in a sub-directory"""
+    roots, pkg = loaders(case)
+    names = [n for r in (roots or []) for n in r] + list(pkg or [])
+    return any('/' in n for n in code_index(names).values()) or any('/' in n for r in (roots or []) for n in code_index(r).values())
+
+
+def shadow_trigger(chains, case, cn: str) -> bool:
+    """F-LOOKUP-USER-GENERAL-FIRST: a built-in template of a nearer class is passed over for a user template of a more general class"""
+    roots, pkg = loaders(case)
+    if roots is None or pkg is None:
         return False
-    st = {stem(n) for n in pkg if stem(n) is not None}
-    return any(c in st and any(a in st for a in ch[1:]) for c, ch in chains.items())
+    fi, pi = code_index([n for r in roots for n in r]), code_index(pkg)
+    for k in chains[cn]:
+        if k in fi:
+            return False
+        if k in pi:
+            return any(a in fi for a in chains[cn][chains[cn].index(k) + 1:])
+    return False
 
 
 def oracle_alias(name: str) -> str:
@@ -217,6 +266,14 @@ def gen_lookup_cases(rng, chains: typing.Dict[str, typing.List[str]], n: int, ti
             cases.append({'policy': 'FIND_ALL', 'fs': None, 'pkg': tpl([anc, desc]), 'seq': [sib, desc], 'get': []})
             cases.append({'policy': 'FIND_ALL', 'fs': tpl([anc, desc]), 'pkg': None, 'seq': [sib, desc], 'get': []})
     cases.append({'policy': 'FIND_ALL', 'fs': ['CompositeType.j2'], 'pkg': ['StructureType.j2'], 'seq': ['StructureType'], 'get': ['StructureType.j2']})
+    # several user search paths: first path wins for the same name, the more specific class may live in a later path, sub-directory
+    for pol in ('FIND_ALL', 'FIND_FIRST'):
+        cases.append({'policy': pol, 'fs': ['CompositeType.j2'], 'fs_more': [['StructureType.j2', 'CompositeType.j2']], 'pkg': ['StructureType.j2'],
+                      'seq': ['StructureType', 'UnionType', 'StructureType'], 'get': ['CompositeType.j2', 'StructureType.j2']})
+        cases.append({'policy': pol, 'fs': [], 'fs_more': [['Any.j2'], ['Any.j2', 'VoidType.j2']], 'pkg': ['VoidType.j2'],
+                      'seq': ['VoidType', 'BooleanType'], 'get': ['Any.j2', 'VoidType.j2']})
+        cases.append({'policy': pol, 'fs': ['sub/StructureType.j2', 'CompositeType.j2'], 'pkg': ['StructureType.j2'], 'seq': ['StructureType'], 'get': []})
+        cases.append({'policy': pol, 'fs': ['CompositeType.j2'], 'fs_more': [['sub/StructureType.j2']], 'pkg': [], 'seq': ['StructureType'], 'get': []})
     cases.append({'policy': 'FIND_ALL', 'fs': ['StructureType.j2'], 'pkg': ['StructureType.j2'], 'seq': ['StructureType'], 'get': ['StructureType.j2']})
     cases.append({'policy': 'FIND_ALL', 'fs': ['sub/StructureType.j2', 'Any.txt', 'notes.md'], 'pkg': ['StructureType.j2'], 'seq': ['StructureType', 'UnionType'], 'get': []})
     cases.append({'policy': 'FIND_FIRST', 'fs': ['x/y/Any.j2'], 'pkg': ['StructureType.j2'], 'seq': ['StructureType'], 'get': []})
@@ -230,8 +287,11 @@ def gen_lookup_cases(rng, chains: typing.Dict[str, typing.List[str]], n: int, ti
             fs = with_decoys(rng, fs, ch, 0.5)
             pkg = with_decoys(rng, pkg, ch, 0.3)
             warm = [rng.choice(ch + classes[:3]) for _ in range(rng.randrange(0, 4))]
-            cases.append({'policy': rng.choice(['FIND_ALL', 'FIND_ALL', 'FIND_FIRST']), 'fs': fs, 'pkg': pkg, 'seq': warm + [cn] + warm[:1],
-                          'get': rng.sample(tpl(ch), min(2, len(ch)))})
+            case = {'policy': rng.choice(['FIND_ALL', 'FIND_ALL', 'FIND_FIRST']), 'fs': fs, 'pkg': pkg, 'seq': warm + [cn] + warm[:1],
+                    'get': rng.sample(tpl(ch), min(2, len(ch)))}
+            if fs is not None and rng.random() < 0.3:   # further user search paths, overlapping names included
+                case['fs_more'] = [with_decoys(rng, tpl([a for a in ch if rng.random() < 0.4]), ch, 0.3) for _ in range(rng.randrange(1, 3))]
+            cases.append(case)
     # (c) random sets over all class names, longer sequences biased towards related classes
     while len(cases) < n:
         focus = chains[rng.choice(classes)]
@@ -381,7 +441,10 @@ def main(chk: core.Check, replay: typing.Optional[str] = None) -> int:
 
     # ---- probes of the listed findings on the implementation -------------------------------------------------------
     probe_doc = {'lookup': [{'policy': 'FIND_ALL', 'fs': [], 'pkg': ['IntegerType.j2', 'UnsignedIntegerType.j2'],
-                             'seq': ['SignedIntegerType', 'UnsignedIntegerType'], 'get': []}],
+                             'seq': ['SignedIntegerType', 'UnsignedIntegerType'], 'get': []},
+                            {'policy': 'FIND_ALL', 'fs': ['sub/StructureType.j2', 'CompositeType.j2'], 'pkg': ['StructureType.j2'],
+                             'seq': ['StructureType'], 'get': []},
+                            {'policy': 'FIND_ALL', 'fs': ['CompositeType.j2'], 'pkg': ['StructureType.j2'], 'seq': ['StructureType'], 'get': []}],
                  'tests': True,
                  'env': [{'lang': 'c', 'allow': False, 'globals': {'range': 1}, 'filters': None, 'tests': None, 'dsdl': False, 'post': []}]}
     probe = run_impl(probe_doc)
@@ -395,7 +458,11 @@ def main(chk: core.Check, replay: typing.Optional[str] = None) -> int:
         return chk.finish()
     live_attr = any(v['cls'] == 'PaddingField' and v['res'].get('padding') is False for v in tv['values'])
     live_glob = probe['env'][0].get('globals', {}).get('range') == 'U1'
-    for fid, live in ((KF_MEMO, live_memo), (KF_ATTR, live_attr), (KF_GLOB, live_glob)):
+    live_subdir = 'err' not in probe['lookup'][1] and impl_outcomes(probe['lookup'][1]) == ['R:P:StructureType.j2']
+    live_shadow = 'err' not in probe['lookup'][2] and impl_outcomes(probe['lookup'][2]) == ['R:U0:CompositeType.j2']
+    q_subdir = live_subdir and chk.is_known(KF_SUBDIR)
+    q_shadow = live_shadow and chk.is_known(KF_SHADOW)
+    for fid, live in ((KF_MEMO, live_memo), (KF_ATTR, live_attr), (KF_GLOB, live_glob), (KF_SUBDIR, live_subdir), (KF_SHADOW, live_shadow)):
         if live and chk.is_known(fid):
             chk.report_known(fid)
     q_shared = live_memo and chk.is_known(KF_MEMO)
@@ -433,9 +500,10 @@ def main(chk: core.Check, replay: typing.Optional[str] = None) -> int:
         return chk.finish()
 
     stats = {'decoy_files': sum(1 for c in lk_cases for k in ('fs', 'pkg') for x in (c[k] or []) if stem(x) not in chains or '/' in x),
-             'lookup_cases': len(lk_cases), 'lookups': 0, 'warm_lookups': 0, 'both_loaders': 0, 'find_first': 0, 'memo_trigger_cases': 0,
-             'known_memo_instances': 0, 'results_none': 0, 'results_user': 0, 'results_builtin': 0, 'nearest_not_self': 0,
-             'user_ancestor_beats_builtin_self': 0, 'test_evaluations': 0, 'test_values': 0, 'known_attr_instances': 0,
+             'lookup_cases': len(lk_cases), 'lookups': 0, 'warm_lookups': 0, 'both_loaders': 0, 'find_first': 0, 'multi_user_dirs': 0,
+             'subdir_trigger_cases': 0, 'shadow_trigger_lookups': 0, 'known_subdir_instances': 0, 'known_shadow_instances': 0,
+             'rendered_none': 0, 'rendered_user': 0, 'rendered_user_not_first_dir': 0, 'rendered_builtin': 0, 'nearest_not_self': 0,
+             'template_not_found': 0, 'test_evaluations': 0, 'test_values': 0, 'known_attr_instances': 0, 'known_memo_instances': 0,
              'env_cases': len(env_cases), 'env_errors': 0, 'env_dsdl_mode': 0, 'known_glob_instances': 0, 'env_allow': 0}
     distinct = set()
     bad_oracle, bad_model = [], []
@@ -444,60 +512,84 @@ def main(chk: core.Check, replay: typing.Optional[str] = None) -> int:
     lines = []
     if ok_model and ids:
         for c in lk_cases:
-            lines.append(' '.join(['L', '1' if q_shared else '0', 'A' if c['policy'] == 'FIND_ALL' else 'F', enc_tset(c['fs']), enc_tset(c['pkg']),
-                                   enc_list([str(ids[x]) for x in c['seq']])]))
-            lines.append(' '.join(['G', 'A' if c['policy'] == 'FIND_ALL' else 'F', enc_tset(c['fs']), enc_tset(c['pkg']),
-                                   enc_list([enc(x) for x in c['get']])]))
+            pol = 'A' if c['policy'] == 'FIND_ALL' else 'F'
+            lines.append(' '.join(['L', '1' if q_shared else '0', pol, enc_roots(c), enc_tset_raw(c['pkg']), enc_list([str(ids[x]) for x in c['seq']])]))
+            lines.append(' '.join(['G', pol, enc_roots(c), enc_tset_raw(c['pkg']), enc_list([enc(x) for x in c['get']])]))
     mout = run_model(exe, lines) if lines else None
     for i, c in enumerate(lk_cases):
         got = impl['lookup'][i]
-        exp = oracle_lookup(chains, c)
-        trig = memo_trigger(chains, c)
-        fs, pkg = loaders(c)
+        prop = oracle_rendered(chains, c)
+        roots, pkg = loaders(c)
+        sub_t = subdir_trigger(c)
         stats['lookups'] += len(c['seq'])
         stats['warm_lookups'] += max(0, len(c['seq']) - 1)
-        stats['both_loaders'] += fs is not None and pkg is not None
+        stats['both_loaders'] += roots is not None and pkg is not None
         stats['find_first'] += c['policy'] == 'FIND_FIRST'
-        stats['memo_trigger_cases'] += trig
+        stats['multi_user_dirs'] += roots is not None and len(roots) > 1
+        stats['subdir_trigger_cases'] += sub_t
         model = None
         if mout is not None:
             a, b = mout[2 * i].split(' '), mout[2 * i + 1].split(' ')
-            if a[0] == 'R' and b[0] == 'G':
+            if a[0] == 'R' and b[0] == 'G' and len(a) == 12:
+                def outs(blob):
+                    return [x if x == 'T' else (x[:2] + dec(x[2:]) if x.startswith('N:') else x[:x.index(':', 2) + 1] + dec(x[x.index(':', 2) + 1:]))
+                            for x in dec_list(blob)]
                 model = {'res': [None if x == '-' else dec(x) for x in dec_list(a[1])],
                          'spec': [None if x == '-' else dec(x) for x in dec_list(a[3])],
-                         'src': [None if x == 'N' else x for x in dec_list(a[5])],
+                         'out': outs(a[5]), 'prop': outs(a[7]), 'flat': a[9] == '1', 'shadow_free': [x == '1' for x in dec_list(a[11])],
                          'get': [None if x == 'N' else x for x in dec_list(b[1])]}
             else:
                 model = {'bad': mout[2 * i][:200]}
         if 'err' in got:
             bad_oracle.append(('lookup', c, 'no exception', got['err'], model))
             continue
-        for j, cn in enumerate(c['seq']):
-            r = exp[j]
-            stats['results_none'] += r is None
-            if r is not None:
-                from_user = fs is not None and r in fs and stem(r) in chains[cn]
-                stats['results_user' if from_user else 'results_builtin'] += 1
-                stats['nearest_not_self'] += stem(r) != cn
-                if from_user and stem(r) != cn and pkg is not None and (cn + '.j2') in pkg:
-                    stats['user_ancestor_beats_builtin_self'] += 1
-        exp_src = [oracle_source(c, None if r is None else r.rsplit('/', 1)[-1]) for r in exp]
+        iout = impl_outcomes(got)
         exp_get = [oracle_source(c, n) for n in c['get']]
-        key = (c['policy'], tuple(c['fs']) if c['fs'] is not None else None, tuple(c['pkg']) if c['pkg'] is not None else None, tuple(c['seq']))
-        if len(c['seq']) > 1 and any(r is not None for r in exp):
+        got_get = [None if x is None else x.strip() for x in got['get']]
+        for j, cn in enumerate(c['seq']):
+            o = prop[j]
+            stats['rendered_none'] += o == 'T'
+            stats['rendered_user'] += o.startswith('R:U')
+            stats['rendered_user_not_first_dir'] += o.startswith('R:U') and not o.startswith('R:U0')
+            stats['rendered_builtin'] += o.startswith('R:P')
+            stats['nearest_not_self'] += o.startswith('R:') and o.rsplit(':', 1)[-1] != cn + '.j2'
+            stats['template_not_found'] += iout[j].startswith('N:')
+        key = (c['policy'], json.dumps([c['fs'], c.get('fs_more'), c['pkg']]), tuple(c['seq']))
+        if len(c['seq']) > 1 and any(o != 'T' for o in prop):
             distinct.add(key)
-        if got['res'] != exp or got['src'] != exp_src or got['get'] != exp_get:
-            if trig and q_shared and model is not None and model.get('res') == got['res'] and model.get('src') == got['src'] \
-                    and got['get'] == exp_get:
-                stats['known_memo_instances'] += 1
+        # the property on the implementation (rendered file per lookup, and get_source on the extra names)
+        for j, cn in enumerate(c['seq']):
+            if iout[j] == prop[j]:
+                continue
+            if got['res'][j] is not None and '/' in got['res'][j] and not live_subdir and iout[j].startswith('R:') \
+                    and iout[j].split(':', 2)[2] == got['res'][j]:
+                continue   # F-LOOKUP-SUBDIR-NAME repaired by rendering the chosen sub-directory file itself: chosen == rendered
+            sh_t = shadow_trigger(chains, c, cn)
+            stats['shadow_trigger_lookups'] += sh_t
+            # the quirk-faithful model must reproduce the instance; if the model cannot be built at all, the trigger alone decides
+            same_as_model = (mout is None) or (model is not None and 'bad' not in model and model['out'][j] == iout[j])
+            if sub_t and q_subdir and same_as_model and got['res'][j] is not None and '/' in got['res'][j]:
+                stats['known_subdir_instances'] += 1
+            elif sh_t and q_shadow and same_as_model:
+                stats['known_shadow_instances'] += 1
             else:
-                bad_oracle.append(('lookup', c, {'res': exp, 'src': exp_src, 'get': exp_get}, got, model))
+                bad_oracle.append(('lookup', c, {'rendered': prop, 'lookup_index': j}, {'rendered': iout, 'res': got['res']}, model))
+                break
+        else:
+            if got_get != exp_get:
+                bad_oracle.append(('lookup', c, {'get': exp_get}, {'get': got_get}, model))
         if model is not None:
             traces += 1
-            if 'bad' in model or model['res'] != got['res'] or model['src'] != got['src'] or model['get'] != got['get']:
-                bad_model.append(('lookup', c, model, got))
+            mget = [None if g is None else g for g in model.get('get', [])]
+            iget = [None if g is None else g.split(':', 1)[0] for g in got_get]
+            if 'bad' in model or model['res'] != got['res'] or model['out'] != iout or mget != iget:
+                bad_model.append(('lookup', c, model, {'res': got['res'], 'rendered': iout, 'get': got_get}))
             elif not q_shared and model['res'] != model['spec']:
-                bad_model.append(('lookup: conformant model differs from its own spec', c, model, got))
+                bad_model.append(('lookup: model differs from its own nearest-ancestor spec', c, model, got))
+            elif model['prop'] != prop:
+                bad_model.append(('lookup: Coq statement of the property (p_spec_rendered) differs from the Python oracle', c, model, prop))
+            elif any(model['flat'] and sf and model['out'][j] != model['prop'][j] for j, sf in enumerate(model['shadow_free'])):
+                bad_model.append(('lookup: model contradicts C16_rendered_file_partial', c, model, got))
 
     # ---- 2. instance tests on real pydsdl objects -------------------------------------------------------------------------
     roots = {}
@@ -598,10 +690,10 @@ def main(chk: core.Check, replay: typing.Optional[str] = None) -> int:
         'samples': [lk_cases[i] for i in range(0, min(len(lk_cases), 400), 57)] + env_cases[:3],
         'traces_validated_against_impl': traces,
         'distribution': stats,
-        'quirks_probed': {KF_MEMO: live_memo, KF_ATTR: live_attr, KF_GLOB: live_glob},
-        'find_all_question': 'under FIND_ALL the user chain is searched to the root before the built-in set (a user CompositeType.j2 '
-                             'beats a built-in StructureType.j2): modelled and proved as such, not reported (%d such lookups exercised)'
-                             % stats['user_ancestor_beats_builtin_self'],
+        'quirks_probed': {KF_MEMO: live_memo, KF_ATTR: live_attr, KF_GLOB: live_glob, KF_SUBDIR: live_subdir, KF_SHADOW: live_shadow},
+        'rendered_file': 'oracle = property reading of C16_rendered_file_partial (most specific class with <Class>.j2 in ANY root, file of the '
+                         'first root); deviations only under the two listed findings (%d sub-directory, %d user-general-first instances, '
+                         'each reproduced by the model)' % (stats['known_subdir_instances'], stats['known_shadow_instances']),
     })
 
     if bad_oracle:
@@ -609,12 +701,13 @@ def main(chk: core.Check, replay: typing.Optional[str] = None) -> int:
         rep = {'what': 'implementation violates the property (%s)' % kind, 'expected_by_property': exp, 'implementation': got, 'model': model,
                'broken': broken, 'n_failing': len(bad_oracle)}
         if kind == 'lookup':
-            small = shrink_lookup(c, chains)
+            small = shrink_lookup(c, chains, q_subdir, q_shadow)
             rep['lookup_case'] = small
             rep['original_case'] = c
             if small is not c:
-                rep['expected_by_property'] = {'res': oracle_lookup(chains, small)}
-                rep['implementation'] = run_impl({'lookup': [small]}).get('lookup', [None])[0]
+                rep['expected_by_property'] = {'rendered': oracle_rendered(chains, small)}
+                g = run_impl({'lookup': [small]}).get('lookup', [None])[0]
+                rep['implementation'] = {'rendered': impl_outcomes(g) if g and 'err' not in g else None, 'raw': g}
         elif kind == 'env':
             rep['env_case'] = c
         else:
@@ -653,13 +746,24 @@ def run_chain_dump() -> typing.Optional[dict]:
         return None
 
 
-def shrink_lookup(case: dict, chains) -> dict:
+def lookup_fails(c: dict, got: dict, chains, q_subdir: bool, q_shadow: bool) -> bool:
+    """the implementation's rendered files differ from the property's, outside the listed findings' triggers"""
+    iout, prop = impl_outcomes(got), oracle_rendered(chains, c)
+    sub_t = subdir_trigger(c) and q_subdir
+    def chosen_is_rendered(j):
+        r = got['res'][j]
+        return r is not None and '/' in r and iout[j].startswith('R:') and iout[j].split(':', 2)[2] == r
+    return any(iout[j] != prop[j] and not (sub_t and got['res'][j] is not None and '/' in got['res'][j])
+               and not (not q_subdir and chosen_is_rendered(j))
+               and not (q_shadow and shadow_trigger(chains, c, cn)) for j, cn in enumerate(c['seq']))
+
+
+def shrink_lookup(case: dict, chains, q_subdir: bool = False, q_shadow: bool = False) -> dict:
     def fails(c):
         r = run_impl({'lookup': [c]})
         if 'harness_error' in r or 'err' in r['lookup'][0]:
             return False
-        g = r['lookup'][0]
-        return g['res'] != oracle_lookup(chains, c)
+        return lookup_fails(c, r['lookup'][0], chains, q_subdir, q_shadow)
     cur = dict(case, get=[])
     if not fails(cur):
         return case
@@ -668,6 +772,8 @@ def shrink_lookup(case: dict, chains) -> dict:
     while changed and budget > 0:
         changed = False
         cands = []
+        if cur.get('fs_more'):
+            cands.append(dict(cur, fs_more=cur['fs_more'][:-1]))
         for k in ('seq', 'fs', 'pkg'):
             if cur[k]:
                 for i in range(len(cur[k])):
